@@ -37,6 +37,36 @@ theorem cdiv_spec (xr xi yr yi : ℝ) (hy : ¬ (yr = 0 ∧ yi = 0)) :
       exact div_ne_zero (ne_of_gt this) hyi
     constructor <;> (simp only []; field_simp; ring)
 
+/-- no division in `cdiv` is by zero when the divisor `yr + i·yi` is non-zero (so `cdiv_spec` does not
+lean on Lean's `x / 0 = 0`): in the first branch the divisors are `yr` and `d = yr + (yi/yr)·yi`, in
+the second `yi` and `d = yi + (yr/yi)·yr` -/
+theorem cdiv_divisors_nonzero (yr yi : ℝ) (hy : ¬ (yr = 0 ∧ yi = 0)) :
+    (|yi| < |yr| → yr ≠ 0 ∧ yr + yi / yr * yi ≠ 0) ∧
+    (¬ |yi| < |yr| → yi ≠ 0 ∧ yi + yr / yi * yr ≠ 0) := by
+  constructor
+  · intro h
+    have hyr : yr ≠ 0 := by
+      intro h0; rw [h0, abs_zero] at h; exact absurd h (not_lt.mpr (abs_nonneg _))
+    refine ⟨hyr, ?_⟩
+    have : yr + yi / yr * yi = (yr ^ 2 + yi ^ 2) / yr := by field_simp
+    rw [this]
+    have : 0 < yr ^ 2 + yi ^ 2 := by positivity
+    exact div_ne_zero (ne_of_gt this) hyr
+  · intro h
+    rw [not_lt] at h
+    have hyi : yi ≠ 0 := by
+      intro h0; apply hy; refine ⟨?_, h0⟩
+      rw [h0, abs_zero] at h; exact abs_eq_zero.mp (le_antisymm h (abs_nonneg _))
+    refine ⟨hyi, ?_⟩
+    have : yi + yr / yi * yr = (yi ^ 2 + yr ^ 2) / yi := by field_simp
+    rw [this]
+    have : 0 < yi ^ 2 + yr ^ 2 := by positivity
+    exact div_ne_zero (ne_of_gt this) hyi
+
+/-- both branches are reachable (non-vacuity), e.g. `1 / (2 + i)` and `1 / (1 + 2i)` -/
+example : (cdiv (1 : ℝ) 0 2 1).1 * 2 - (cdiv (1 : ℝ) 0 2 1).2 * 1 = 1 := (cdiv_spec 1 0 2 1 (by norm_num)).1
+example : (cdiv (1 : ℝ) 0 1 2).1 * 1 - (cdiv (1 : ℝ) 0 1 2).2 * 2 = 1 := (cdiv_spec 1 0 1 2 (by norm_num)).1
+
 /-! ## symmetry test and dispatch (EigenValue.h:1079-1100) -/
 
 /-- the constructor's symmetry flag is the mathematical predicate "A equals its transpose" -/
@@ -204,6 +234,22 @@ theorem spectrum_trace_det (n : Nat) (A V W : FMat ℝ) (d e : Nat → ℝ) (hwf
   constructor
   · rw [trace_of_similar _ _ _ _ hAV hVW, trace_blockEntry, spectrumSum_eq]
   · rw [det_of_similar _ _ _ _ hAV hVW, det_blockEntry n d e hwf, spectrumProd_eq]
+
+/-- the quantity the driver's `residual` clause measures (entries of `A·V − V·D` computed with the
+model's product loop and the model's `blockEntry`) vanishes exactly when the hypothesis
+`A·V = V·D` of `spectrum_trace_det` holds -/
+theorem residual_zero_iff (n : Nat) (A V : FMat ℝ) (d e : Nat → ℝ) :
+    (∀ i j, i < n → j < n → multEntry n A V i j - multEntry n V (blockEntry d e) i j = 0) ↔
+    toMatrix n A * toMatrix n V = toMatrix n V * toMatrix n (blockEntry d e) := by
+  rw [← toMatrix_mult, ← toMatrix_mult]
+  constructor
+  · intro h; ext i j
+    have := h i j i.isLt j.isLt
+    simp only [toMatrix]; linarith
+  · intro h i j hi hj
+    have := congrFun (congrFun h ⟨i, hi⟩) ⟨j, hj⟩
+    simp only [toMatrix] at this
+    linarith
 
 /-- the determinant of `D` itself (no similarity needed): 2 × 2 blocks contribute `d² + e²` -/
 theorem getD_det (n : Nat) (d e : Nat → ℝ) (hwf : PairsWF n d e) :
